@@ -5,14 +5,42 @@ use crate::path::VfsFileType;
 use crate::{VfsError, VfsMetadata, VfsResult};
 
 use async_std::fs::{File, OpenOptions};
-use async_std::io::{ErrorKind, Write};
+use async_std::io::{ErrorKind, Read, Seek, SeekFrom, Write};
 use async_std::path::{Path, PathBuf};
 use async_trait::async_trait;
 use filetime::FileTime;
 use futures::stream::{Stream, StreamExt};
 use std::pin::Pin;
+use std::task::{Context, Poll};
 use std::time::SystemTime;
 use tokio::runtime::Handle;
+
+/// Read handle: async-std's `File` takes the result of a read into an empty buffer for the end of the file and
+/// returns no data from any later read; such a read is answered here without reaching it
+struct ReadableFile(File);
+
+impl Read for ReadableFile {
+    fn poll_read(
+        mut self: Pin<&mut Self>,
+        cx: &mut Context<'_>,
+        buf: &mut [u8],
+    ) -> Poll<std::io::Result<usize>> {
+        if buf.is_empty() {
+            return Poll::Ready(Ok(0));
+        }
+        Pin::new(&mut self.0).poll_read(cx, buf)
+    }
+}
+
+impl Seek for ReadableFile {
+    fn poll_seek(
+        mut self: Pin<&mut Self>,
+        cx: &mut Context<'_>,
+        pos: SeekFrom,
+    ) -> Poll<std::io::Result<u64>> {
+        Pin::new(&mut self.0).poll_seek(cx, pos)
+    }
+}
 
 /// A physical filesystem implementation using the underlying OS file system
 #[derive(Debug)]
@@ -98,7 +126,9 @@ impl AsyncFileSystem for AsyncPhysicalFS {
     }
 
     async fn open_file(&self, path: &str) -> VfsResult<Box<dyn SeekAndRead + Send + Unpin>> {
-        Ok(Box::new(File::open(self.get_path(path)).await?))
+        Ok(Box::new(ReadableFile(
+            File::open(self.get_path(path)).await?,
+        )))
     }
 
     async fn create_file(&self, path: &str) -> VfsResult<Box<dyn Write + Send + Unpin>> {
